@@ -30,6 +30,8 @@ type Mined struct {
 	Edits  []string            // what the plus side changes
 	HoleAt map[string]string   // hole -> slot name of first occurrence
 	Opts   MineOpts
+	// NoMarker: the plus side deliberately carries no marker identifier (see MineOpts.Unwrap).
+	NoMarker bool
 }
 
 // DotsInfo describes an elision placeholder.
@@ -46,6 +48,7 @@ type MineOpts struct {
 	NoDots     bool // C03
 	DotsBias   bool // C04
 	DupBias    bool // C03: plus sides that use a metavariable several times
+	Unwrap     bool // C03: sometimes the plus side is a bare metavariable of the minus side ("-traced(x)" / "+x"); such a plus side carries no marker
 }
 
 // Candidate roots ------------------------------------------------------------
@@ -567,6 +570,9 @@ func (m *Mined) derivePlus(t *rapid.T) {
 		}
 		return !has
 	})
+	if m.NoMarker {
+		return
+	}
 	if !marked || !has {
 		// Guaranteed fallback: wrap / prepend something carrying the marker.
 		m.forceMarker()
@@ -694,8 +700,19 @@ func (m *Mined) editOnce(t *rapid.T, needMarker bool) (string, bool) {
 	if !needMarker {
 		choices = append(choices, "swap", "drop-elem", "dup-hole", "del-stmt", "drop-dots", "wrap-sub")
 	}
+	if m.Opts.Unwrap && !needMarker && m.Kind == ref.PExpr && len(holeSlots) > 0 && len(m.Edits) == 0 {
+		choices = append(choices, "unwrap", "unwrap")
+	}
 	choice := choices[rapid.IntRange(0, len(choices)-1).Draw(t, "edit")]
 	switch choice {
+	case "unwrap":
+		h := holeSlots[rapid.IntRange(0, len(holeSlots)-1).Draw(t, "unwrapHole")].Node().(*ast.Ident)
+		if id, ok := m.Plus.(*ast.Ident); ok && id.Name == h.Name {
+			return "", false
+		}
+		m.Plus = &ast.Ident{Name: h.Name}
+		m.NoMarker = true
+		return "unwrap", true
 	case "rename":
 		if len(identSlots) == 0 {
 			return "", false
